@@ -90,6 +90,30 @@ def obs_dec(h, data, pos, newbyte):
     return f"(CDec {hdr_lit(h)} {L.nlist(data)} {pos}%nat {newbyte}%N 2%N ({hdr_lit(hdr_of(blk.header))}, {L.nlist(blk.data)}))"
 
 
+def corruption_sweep(rnd, tier):
+    """EVERY single-byte change (every position behind the length byte, every other byte value) of a few encoded blocks through
+    SecsIBlock.decode: none may be accepted.  Judged here (the statement needs no model: 'never accepted'); the sampled CDec cases
+    above additionally go through the model."""
+    accepted, total = [], 0
+    blocks = [(rand_hdr(rnd), body_of(n, rnd)) for n in ((0, 3, 20) if tier == "quick" else (0, 1, 3, 20, 100, 244))]
+    for h, data in blocks:
+        enc = SecsIBlock(mk_header(h), data).encode()
+        for pos in range(1, len(enc)):
+            for nb in range(256):
+                if nb == enc[pos]:
+                    continue
+                total += 1
+                bad = bytearray(enc)
+                bad[pos] = nb
+                try:
+                    blk = SecsIBlock.decode(bytes(bad))
+                except Exception:  # noqa: BLE001
+                    blk = None
+                if blk is not None:
+                    accepted.append({"block_hex": enc.hex(), "position": pos, "old": enc[pos], "new": nb})
+    return total, accepted
+
+
 def obs_reasm(blocks):
     proto = object.__new__(SecsIProtocol)
     proto._incomplete_messages = {}
@@ -216,6 +240,9 @@ def run(tier, replay=None):
         return report.finish()
     rnd = common.rng("c16")
     lits = gen_cases(rnd, tier)
+    swept, accepted = corruption_sweep(rnd, tier)
+    if accepted:
+        report.violation({"kind": "counterexample", "what": "a block with one byte altered in transit was accepted by SecsIBlock.decode", **accepted[0], "count": len(accepted), "swept": swept}, True, tag="sweep")
     bad, stats = evaluate(lits, "c16")
     decide_lits(report, "C16", lits, bad, stats, proof, SPEC_CODES, MODEL_CODES)
     import hashlib
@@ -229,6 +256,7 @@ def run(tier, replay=None):
                    "several values (and left unchanged) through SecsIBlock.decode; CReasm = blocks of 1-4 messages with distinct system bytes interleaved at random "
                    "through Protocol._add_message_block; every case is distinct by construction (hash of the literal) and non-trivial (it exercises an encoder/decoder)")
     cov["correspondence"] = {k: v for k, v in stats.items() if k != "eval_errors"}
+    cov["exhaustive_single_byte_corruptions"] = {"swept": swept, "accepted": len(accepted)}
     cov["distribution"] = dict(Counter(k for k, _ in lits))
     cov["samples"] = [l[1][:300] for l in lits[:: max(1, len(lits) // 6)][:6]]
     return report.finish()
